@@ -1382,32 +1382,13 @@ func c18BinaryInner(t *testing.T) {
 		// parser of the text format folds them into one map entry (the later one wins) before server.New sees anything
 		{
 			atomic.AddInt64(&vl.n, 1)
-			// (a host address of the configured network that is neither the server's nor another client's)
-			net4 := append(net.IP{}, valid.own.To4()...)
-			if _, ipn, err := net.ParseCIDR(valid.conf.GetNetwork()); err == nil && ipn.IP.To4() != nil {
-				lo := binary.BigEndian.Uint32(ipn.IP.To4())
-				hi := lo | ^binary.BigEndian.Uint32(net.IP(ipn.Mask).To4())
-				own := binary.BigEndian.Uint32(valid.own.To4())
-				taken := map[uint32]bool{own: true}
-				for _, cl := range valid.conf.GetClient() {
-					if ip := net.ParseIP(cl.GetIp()).To4(); ip != nil {
-						taken[binary.BigEndian.Uint32(ip)] = true
-					}
-				}
-				for d := uint32(1); d < 64; d++ {
-					if c := own ^ d; c > lo && c < hi && !taken[c] {
-						binary.BigEndian.PutUint32(net4, c^1) // (written below as net4[3]^1)
-						break
-					}
-				}
-			}
-			twice := good + fmt.Sprintf("client: { key: \"02:ee:00:00:00:77\" value: { ip: \"%d.%d.%d.%d\" } }\nclient: { key: \"02:ee:00:00:00:77\" value: { dns: \"9.9.9.9\" } }\n",
-				net4[0], net4[1], net4[2], net4[3]^1)
+			// (the first entry carries a host name: no address has to be found for it, whatever the network of this seed's configuration)
+			twice := good + "client: { key: \"02:ee:00:00:00:77\" value: { hostname: \"first-entry\" } }\nclient: { key: \"02:ee:00:00:00:77\" value: { dns: \"9.9.9.9\" } }\n"
 			if ok, _ := startOn(twice); ok {
-				vl.add("c18-text-duplicate-key", "psa-dhcpd came up on a configuration file that lists the hardware address 02:ee:00:00:00:77 twice (first entry: a static address, second entry: a DNS server); the first entry is dropped silently")
+				vl.add("c18-text-duplicate-key", "psa-dhcpd came up on a configuration file that lists the hardware address 02:ee:00:00:00:77 twice (first entry: a host name, second entry: a DNS server); the first entry is dropped silently")
 			}
 			// the same key in other legal dresses of the text format: escapes, single quotes, adjacent strings, angle brackets
-			first := fmt.Sprintf("client: { key: \"02:ee:00:00:00:77\" value: { ip: \"%d.%d.%d.%d\" } }\n", net4[0], net4[1], net4[2], net4[3]^1)
+			first := "client: { key: \"02:ee:00:00:00:77\" value: { hostname: \"first-entry\" } }\n"
 			for name, second := range map[string]string{
 				"hex-escapes":      "client: { key: \"02:ee:00:00:00:\\x37\\x37\" value: { dns: \"9.9.9.9\" } }\n",
 				"octal-escape":     "client: { key: \"02:ee:00:00:00:7\\067\" value: { dns: \"9.9.9.9\" } }\n",
